@@ -21,6 +21,13 @@ HIST = {
  'b11-inherited-start-spelling-of-farthest-ancestor': 'missed at first (the generator always wrote `start`): start spelling per level',
  'c11-metadata-class-level-dict': 'missed at first (no client used the module\'s own tools on a result): operation postprocess',
  'b2-anon-ignore-names': 'caught as built; re-expressed against the repaired tree (D7 fix) as "drop the depth from the name"',
+ 'a17-adaptive-memoisation-frozen-after-1000-calls': 'missed at first (no module lived through more than ~30 calls): operation burst - hundreds to thousands of ordinary calls on the hot module before the judged ones',
+ 'b15-keyword-arguments-bound-by-position-at-compile-time': 'missed at first (single-parameter templates, positional calls, parameterised rules never overridden): keyword calls, numeric arguments and count parameters in the spec language; kind-matrix grammars call Cn(p, q) by keyword and by position, derived grammars override it with permuted parameters',
+ 'b16-module-registered-before-its-body-ran': 'C13 (sequential) cannot see it - it needs two threads and is C18\'s clause "interleaved Grammar() constructions"; C18 missed it at first: race scenario, pre-emptible module bodies, extension of a module another client is building; caught by the thorough tier only (run 12341 of 28000)',
+ 'c16-expression-ids-from-process-wide-counter-reset-per-construction': 'missed at first (needs a second construction to start inside the translation phase of a first one, 3 % of its steps): race scenario with the point biased to the construction\'s own logic, source-divergence lead with extra probes; caught by the thorough tier only (run 11587 of 27500)',
+ 'b17-parent-python-section-names-imported-over-the-childs': 'missed at first (generated chains had no Python sections): helper sections hlp/hlq defined differently at every level, used by `|>` and `where` of that level; the flattened model renames them per level',
+ 'b18-literal-wrappers-interned-by-value-across-the-chain': 'missed at first (the same literal argument at two levels with and without ignore was a once-in-4000-histories shape - the shape of known finding D8): derived grammars echo a literal call of an ancestor in half of the chains; caught through the stability invariant (using B changed A); the order "base first" is masked by D8\'s attribution',
+ 'c18-per-family-rlock-around-the-driver-lock-ordering': 'hung the simulator at first (a real lock in the shipped parser blocked the baton holder: exit 2): synchronisation seam (simulated locks, outcome deadlock), sourcer imported under the seam, mutual-nesting workload; caught as `deadlock` vs value',
  'c10-recursion-limit-raised-during-construction': 'missed at first (no user code looked at interpreter-wide settings): envprobe() in generated grammars; module-state mutation lines in library code are injection points',
 }
 res = open('/verif/seeded/RESULTS.txt').read().splitlines()
